@@ -23,6 +23,7 @@ def opt(name, has_val):
 tier = opt("--tier", True) or "quick"
 props_override = opt("--props", True)
 both = bool(opt("--both", False))
+only_mode = opt("--mode", True)   # plain | escalated: run one mode only and MERGE it into the recorded last_run.json
 inplace = bool(opt("--inplace", False))
 names = argv or sorted(p.name for p in (ROOT / "seeded").iterdir() if (p / "patch.diff").exists())
 BASE_REPO = os.environ.get("SEED_BASE_REPO", "/repo")      # family builders: their own y0 worktree
@@ -60,7 +61,7 @@ try:
         runs = {}
         try:
             for p in props:
-                for mode in (["escalated", "plain"] if both else ["escalated"]):
+                for mode in ([only_mode] if only_mode else (["escalated", "plain"] if both else ["escalated"])):
                     e = dict(env)
                     if mode == "plain":
                         e["VERIF_NO_ESCALATE"] = "1"
@@ -78,8 +79,15 @@ try:
                     print(f"{name}: ./check {p} [{mode}] -> exit {rc}; {len(vio)} VIOLATION line(s); {tail}", flush=True)
         finally:
             subprocess.run(["git", "-C", repo, "checkout", "--", "."], check=True)
+        if only_mode and (d / "last_run.json").exists():
+            try:
+                prev = json.loads((d / "last_run.json").read_text()).get("runs", {})
+            except Exception:
+                prev = {}
+            runs = {**{k: v for k, v in prev.items() if k.split(":")[0] in props}, **runs}
+        modes = sorted({k.split(":")[1] for k in runs}) if only_mode else (["escalated", "plain"] if both else ["escalated"])
         caught = {m: any(v["exit"] == 1 and v["violation_lines"] for k, v in runs.items() if k.endswith(":" + m))
-                  for m in (["escalated", "plain"] if both else ["escalated"])}
+                  for m in modes}
         (d / "last_run.json").write_text(json.dumps({"tier": tier, "runs": runs, "caught": caught}, indent=1) + "\n")
         summary.append((name, " ".join(f"{m}={'CAUGHT' if c else 'MISSED'}" for m, c in caught.items())))
 finally:
